@@ -14,7 +14,7 @@ BUDGET = {
     "quick": {"runs": 4500, "time_cap": 150, "determinism_sample": 40, "shrink_runs": 300},
     "thorough": {"runs": 80000, "time_cap": 1500, "determinism_sample": 300, "shrink_runs": 600},
 }
-BOUNDS = "0-40 packets (caplen 0..9000, rarely up to 70000), 1-5 filters + optional end filter, expression depth <=3, 0-3 globals, <=3 statements per action, one nested if"
+BOUNDS = "0-40 packets (caplen 0..9000, rarely up to 70000; 4 % of the runs: 500-5000 tiny packets), 1-5 filters + optional end filter, expression depth <=3, 0-3 globals, <=3 statements per action, one nested if"
 RULE = ("each run = one generated pcap stream on stdin (both magics; default or varied global header) x one generated "
         "filter program (patterns over NP/PL/WL/TSS/TSU, ($0).sec/usec/caplen/wirelen, globals and constants; actions that "
         "update globals and filter locals, print, assign ($0).sec/usec/wirelen, nested if; action-less filters; optional end) "
@@ -35,7 +35,7 @@ PROBES = [
     "probe.chunk_in_record_header", "probe.chunk_in_global_header", "probe.modified_then_written", "probe.written_twice",
     "probe.no_packet_selected", "probe.end_filter", "probe.skip_pcap", "probe.nondefault_header", "probe.local_used",
     "probe.command_mode", "probe.packet_gt_8192", "probe.end_only_program", "probe.nested_field_modified_then_written",
-    "probe.late_nonfilter_statement", "probe.global_function_called",
+    "probe.late_nonfilter_statement", "probe.global_function_called", "probe.long_stream",
 ]
 
 M = 1000003
@@ -461,7 +461,12 @@ def generate(rng, tier, idx):
     deep = tier == "thorough"
     n = rng.weighted([(8, 0), (12, 1), (30, rng.range(2, 6)), (35, rng.range(6, 20)), (15, rng.range(20, 40)), (10 if deep else 0, 40)])
     recs = [pcapfmt.gen_record(rng, hdr["snaplen"], allow_huge=rng.chance(3)) for _ in range(n)]
-    eth = hdr["snaplen"] >= 64 and rng.chance(35)
+    if rng.chance(8 if deep else 4):
+        # a long stream of tiny packets: per-packet resource handling (stack, frames) over thousands of filter invocations
+        n = rng.choice([500, 1500, 5000])
+        recs = [{"sec": i, "usec": (i * 7919) % 1000000, "wirelen": (i * 31) % 1600,
+                 "data": {"t": "pattern", "n": min(hdr["snaplen"], i % 9), "mul": 1, "add": i % 256}} for i in range(n)]
+    eth = len(recs) <= 40 and hdr["snaplen"] >= 64 and rng.chance(35)
     if eth:
         # every packet is an Ethernet frame whose ethertype p2sh leaves unparsed (payload stays raw)
         for r in recs:
@@ -623,6 +628,8 @@ def check(model, results):
         inc("probe.global_function_called")
     if any(r["data"]["n"] > 8192 for r in recs):
         inc("probe.packet_gt_8192")
+    if len(recs) >= 500:
+        inc("probe.long_stream")
     inc("ops.packets", len(recs))
     shape = "|".join(("b" if f["act"] is None else ("pa" if f["pat"] is not None else "a")) for f in model["prog"]["filters"]) + ("|e" if model["prog"]["end"] is not None else "")
     cutc = "nocut" if model["cut"] is None else ("cutb" if model["cut"] in offs else "cutm")
